@@ -53,7 +53,7 @@ func fixedScenarios(rng *wh.Rng, thorough bool) []Scenario {
 		for _, c := range []ReqSpec{
 			{Caller: "early", End: "cancel", Outcomes: []string{"slow"}}, {Caller: "early", End: "parent", Outcomes: []string{"slow"}, ReadAfter: true},
 			{Caller: "early", End: "cancel", Outcomes: []string{"err", "slow"}, ReadAfter: true}, {Caller: "replyearly", End: "parent", Outcomes: []string{"slow"}},
-			{Caller: "sendfail", End: "cancel", Outcomes: []string{"ok"}},
+			{Caller: "sendfail", End: "cancel", Outcomes: []string{"ok"}}, {Caller: "replysendfail", End: "parent", Outcomes: []string{"ok"}},
 		} {
 			out = append(out, single(ack, !flip, rng.Next(), c))
 		}
@@ -119,6 +119,30 @@ func fixedScenarios(rng *wh.Rng, thorough bool) []Scenario {
 			}
 		}
 	}
+	// the reply Pub/Sub waits for its subscribers: a reply published after a listener ended (time-out passed, caller never
+	// cancels anything) must still be published and its command settled
+	for _, ack := range []bool{false, true} {
+		for _, dl := range []int{0, 3600000} {
+			out = append(out, Scenario{AckErrs: ack, Shared: true, BlockReplies: true, TimeoutMs: 25, Seed: rng.Next(), Reqs: []ReqSpec{
+				{Caller: "drain", End: "timeout", Outcomes: []string{"slow"}, DeadlineMs: dl}, {Caller: "never", End: "timeout", Outcomes: []string{"slow"}, DeadlineMs: dl},
+				{Caller: "drain", End: "timeout", Outcomes: []string{"err", "slow"}, DeadlineMs: dl}, {Caller: "reply", End: "cancel", Outcomes: []string{"slow"}},
+			}})
+		}
+		out = append(out, Scenario{AckErrs: ack, Shared: !ack, BlockReplies: true, Seed: rng.Next(), Reqs: []ReqSpec{
+			{Caller: "drain", End: "cancel", Outcomes: []string{"err", "err", "ok"}}, {Caller: "never", End: "parent", Outcomes: []string{"ok"}},
+			{Caller: "one", End: "cancel", Outcomes: []string{"err", "ok"}}, {Caller: "early", End: "cancel", Outcomes: []string{"slow"}},
+			{Caller: "reply", End: "cancel", Outcomes: []string{"pubfail", "ok"}}, {Caller: "drain", End: "parent", Outcomes: []string{"bad"}},
+		}})
+	}
+	// the command message's context ends while the handler works (Router time-out middleware): the reply is published and the
+	// command settled per AckCommandErrors all the same
+	for _, ack := range []bool{false, true} {
+		out = append(out, Scenario{AckErrs: ack, Shared: ack, HandlerTimeoutMs: 15, Seed: rng.Next(), Reqs: []ReqSpec{
+			{Caller: "drain", End: "cancel", Outcomes: []string{"ctxok"}}, {Caller: "drain", End: "parent", Outcomes: []string{"ctxerr", "ok"}},
+			{Caller: "reply", End: "cancel", Outcomes: []string{"ctxerr"}}, {Caller: "never", End: "cancel", Outcomes: []string{"ctxok"}},
+			{Caller: "one", End: "cancel", Outcomes: []string{"ctxerr", "ctxerr", "ctxok"}},
+		}})
+	}
 	// timeouts
 	for _, ack := range []bool{false, true} {
 		for _, shared := range []bool{true, false} {
@@ -173,7 +197,7 @@ func randomScenario(rng *wh.Rng, n int, ack, shared *bool) Scenario {
 	}
 	for i := 0; i < n; i++ {
 		q := ReqSpec{}
-		q.Caller = []string{"drain", "drain", "drain", "one", "one", "never", "never", "never", "early", "early", "reply", "replyearly", "sendfail"}[rng.Intn(13)]
+		q.Caller = []string{"drain", "drain", "drain", "one", "one", "never", "never", "never", "early", "early", "reply", "replyearly", "sendfail", "replysendfail"}[rng.Intn(14)]
 		q.End = []string{"cancel", "cancel", "parent"}[rng.Intn(3)]
 		if small && rng.Intn(3) > 0 && q.Caller != "early" {
 			q.End = "timeout"
@@ -187,6 +211,9 @@ func randomScenario(rng *wh.Rng, n int, ack, shared *bool) Scenario {
 		}
 		if q.Caller == "reply" || q.Caller == "replyearly" || q.Caller == "sendfail" {
 			q.End = "cancel"
+		}
+		if q.Caller == "replysendfail" {
+			q.End = "parent"
 		}
 		k := 1 + rng.Intn(3)
 		for j := 0; j < k; j++ {
@@ -203,7 +230,21 @@ func randomScenario(rng *wh.Rng, n int, ack, shared *bool) Scenario {
 		q.ReadAfter = q.Caller == "early" && rng.Bool()
 		sc.Reqs = append(sc.Reqs, q)
 	}
-	sc.CloseSub = rng.Intn(8) == 0 && !small
+	if rng.Intn(8) == 0 {
+		// the Router's time-out middleware ends the message context while some handlers still work
+		sc.HandlerTimeoutMs = 10 + rng.Intn(20)
+		for i := range sc.Reqs {
+			for j, o := range sc.Reqs[i].Outcomes {
+				if o == "ok" && rng.Bool() {
+					sc.Reqs[i].Outcomes[j] = "ctxok"
+				} else if o == "err" && rng.Bool() {
+					sc.Reqs[i].Outcomes[j] = "ctxerr"
+				}
+			}
+		}
+	}
+	sc.BlockReplies = rng.Intn(8) == 0
+	sc.CloseSub = rng.Intn(8) == 0 && !small && !sc.BlockReplies
 	switch rng.Intn(10) {
 	case 0, 1:
 		sc.NoHook = true
@@ -214,12 +255,27 @@ func randomScenario(rng *wh.Rng, n int, ack, shared *bool) Scenario {
 	if rng.Intn(3) == 0 {
 		sc.Foreign = 1 + rng.Intn(4)
 	}
-	if rng.Intn(4) == 0 && !small {
+	if sc.BlockReplies {
+		// every reply Publish waits for every listener on the topic: a listener must never sit at a send with a full channel
+		// while its context is alive, i.e. callers that stop reading get at most as many replies as they read plus one
+		for i, q := range sc.Reqs {
+			replies := 0
+			for _, o := range q.Outcomes {
+				if o == "ok" || o == "err" || o == "bad" || o == "ctxok" || o == "ctxerr" {
+					replies++
+				}
+			}
+			if (q.Caller == "never" && replies > 1) || (q.Caller == "one" && replies > 2) {
+				sc.Reqs[i].Caller = "drain"
+			}
+		}
+	}
+	if rng.Intn(4) == 0 && !small && !sc.BlockReplies {
 		// park a listener whose caller does not drain and which gets at least two replies
 		for i, q := range sc.Reqs {
 			replies := 0
 			for _, o := range q.Outcomes {
-				if o == "ok" || o == "err" || o == "bad" {
+				if o == "ok" || o == "err" || o == "bad" || o == "ctxok" || o == "ctxerr" {
 					replies++
 				}
 			}
